@@ -67,6 +67,7 @@ func runC15(p *Prog, r *Report) {
 	c.relational()
 	c.extSignatures()
 	c.capabilities()
+	c.clausesStartEmpty()
 	c.lubBoth()
 	c.closure()
 	c.conformanceVisitsAll()
@@ -247,6 +248,9 @@ func (c *c15ctx) relational() {
 					}
 					if hasL && hasR {
 						joint = "call " + calleeName(x) + " takes both operand types"
+						if f := x.Common().StaticCallee(); f != nil && fnPkgPath(f) == pValidate && len(f.Blocks) > 0 {
+							c.sameKindHelper(f)
+						}
 					}
 				case *ssa.BinOp:
 					if (dl[x.X] && dr[x.Y]) || (dr[x.X] && dl[x.Y]) {
@@ -270,6 +274,80 @@ func (c *c15ctx) relational() {
 		r.Check(joint != "", rule, construct, p.pos(h.Pos()), "the rule relates the two operand types: "+joint,
 			fnShort(h)+" checks each operand of an ordering comparison on its own and never relates the two inferred types; the evaluator requires both sides to be of the same kind (Long, datetime or duration), so `1 < datetime(\"2020-01-01\")` validates and fails at run time with a type error")
 	}
+}
+
+// sameKindHelper: the validator's "are these two comparable types of the same kind" predicate has to tell every two
+// comparable kinds apart. Long is a type of its own; datetime and duration are both the extension type and differ only in
+// its name, so the predicate must compare the two names and let the result decide.
+func (c *c15ctx) sameKindHelper(f *ssa.Function) {
+	p, r := c.p, c.r
+	const rule = "R15.2-relational"
+	construct := "validate." + fnShort(f) + ":names-compared"
+	if len(f.Params) != 2 {
+		r.Undec(rule, construct, p.pos(f.Pos()), "the joint predicate does not take exactly the two operand types")
+		return
+	}
+	nameOf := func(v ssa.Value) int {
+		var owner ssa.Value
+		switch x := v.(type) {
+		case *ssa.Field:
+			if st := structOf(x.X.Type()); st != nil && st.Field(x.Field).Name() == "name" && typeIs(x.X.Type(), pValidate, "typeExtension") {
+				owner = x.X
+			}
+		case *ssa.UnOp:
+			// the asserted value was spilled into a local: *(&local.name)
+			if fa, ok := x.X.(*ssa.FieldAddr); ok && x.Op == token.MUL {
+				if _, fname := fieldAddrName(fa); fname == "name" {
+					if pt, ok := fa.X.Type().Underlying().(*types.Pointer); ok && typeIs(pt.Elem(), pValidate, "typeExtension") {
+						owner = fa.X
+					}
+				}
+			}
+		}
+		if owner == nil {
+			return -1
+		}
+		for _, l := range leavesOf(owner) {
+			for i, pr := range f.Params {
+				if l == ssa.Value(pr) {
+					return i
+				}
+			}
+		}
+		return -1
+	}
+	var cmp *ssa.BinOp
+	forEachInstr(f, func(in ssa.Instruction) {
+		bo, ok := in.(*ssa.BinOp)
+		if !ok || (bo.Op != token.EQL && bo.Op != token.NEQ) {
+			return
+		}
+		a, b := nameOf(bo.X), nameOf(bo.Y)
+		if a >= 0 && b >= 0 && a != b {
+			cmp = bo
+		}
+	})
+	decides := false
+	if cmp != nil {
+		for _, b := range f.Blocks {
+			ret, ok := lastInstr(b).(*ssa.Return)
+			if !ok || len(ret.Results) != 1 {
+				continue
+			}
+			for _, l := range leavesOf(ret.Results[0]) {
+				if l == ssa.Value(cmp) {
+					decides = true
+				}
+			}
+			for _, g := range guardsAt(b) {
+				if dependsOnValue(g.Cond, cmp) {
+					decides = true
+				}
+			}
+		}
+	}
+	r.Check(cmp != nil && decides, rule, construct, p.pos(f.Pos()), "two extension types are of the same kind only if their names agree",
+		fnShort(f)+" does not compare the names of two extension types (or does not let the comparison decide): datetime and duration are then the same kind to the validator, `context.issued < context.ttl` validates, and evaluation fails with a type error")
 }
 
 func (c *c15ctx) extSignatures() {
@@ -1411,4 +1489,113 @@ func (c *c15ctx) singletonDecisions() {
 	if n == 0 {
 		r.Undec(rule, "validate:union-decisions", "-", "no decision taken from a single union member found (anchor vanished)")
 	}
+}
+
+// R15.4 (clauses start empty): what a `has` test establishes holds for the rest of the clause it appears in — and, at most,
+// for later clauses if it appeared in a `when` clause. An `unless { principal has nick }` lets the policy through exactly
+// when the attribute is ABSENT. The clause loop must therefore hand the typing function a fresh capability set, or carry a
+// set forward only under a test of the clause's kind.
+func (c *c15ctx) clausesStartEmpty() {
+	p, r := c.p, c.r
+	const rule = "R15.4-capabilities"
+	fresh := p.fn(pValidate, "newCapabilitySet")
+	if fresh == nil || c.dispatch == nil {
+		r.Anchor(rule, "validate.newCapabilitySet / the typing dispatcher")
+		return
+	}
+	n := 0
+	for _, fn := range p.Funcs {
+		if fnPkgPath(fn) != pValidate || len(fn.Blocks) == 0 {
+			continue
+		}
+		// functions that type the body of a clause: a dispatcher call whose node argument is a clause's Body
+		for _, cl := range callsIn(fn) {
+			call, ok := cl.(*ssa.Call)
+			if !ok || call.Call.StaticCallee() != c.dispatch {
+				continue
+			}
+			isBody := false
+			var caps ssa.Value
+			for _, a := range call.Call.Args {
+				if typeIs(a.Type(), pValidate, "capabilitySet") {
+					caps = a
+				}
+				for _, l := range leavesOf(a) {
+					if fa, ok := l.(*ssa.FieldAddr); ok {
+						if _, f := fieldAddrName(fa); f == "Body" {
+							isBody = true
+						}
+					}
+					if fl, ok := l.(*ssa.Field); ok {
+						if st := structOf(fl.X.Type()); st != nil && st.Field(fl.Field).Name() == "Body" && typeIs(fl.X.Type(), pXAst, "ConditionType") {
+							isBody = true
+						}
+					}
+				}
+			}
+			if !isBody {
+				// leavesOf stops at loads: look one step further for *(&clause.Body)
+				for _, a := range call.Call.Args {
+					if ld, ok := a.(*ssa.UnOp); ok && ld.Op == token.MUL {
+						if fa, ok := ld.X.(*ssa.FieldAddr); ok {
+							if _, f := fieldAddrName(fa); f == "Body" {
+								if pt, ok := fa.X.Type().Underlying().(*types.Pointer); ok && typeIs(pt.Elem(), pXAst, "ConditionType") {
+									isBody = true
+								}
+							}
+						}
+					}
+				}
+			}
+			if !isBody || caps == nil {
+				continue
+			}
+			n++
+			construct := "validate." + fnShort(fn) + ":clause-capabilities"
+			if cc, ok := caps.(*ssa.Call); ok && cc.Call.StaticCallee() == fresh {
+				r.OK(rule, construct, p.pos(call.Pos()), "every clause is typed from a fresh, empty capability set")
+				continue
+			}
+			// carried: every store that feeds the carried set must be under a test of the clause kind
+			guarded := true
+			found := false
+			forEachInstr(fn, func(in ssa.Instruction) {
+				st, ok := in.(*ssa.Store)
+				if !ok || !typeIs(st.Val.Type(), pValidate, "capabilitySet") {
+					return
+				}
+				if cc, ok := st.Val.(*ssa.Call); ok && cc.Call.StaticCallee() == fresh {
+					return
+				}
+				found = true
+				kindTested := false
+				for _, g := range guardsAt(st.Block()) {
+					for _, l := range leavesOf(flattenGuard(g).Cond) {
+						if fa, ok := l.(*ssa.FieldAddr); ok {
+							if _, f := fieldAddrName(fa); f == "Condition" {
+								kindTested = true
+							}
+						}
+					}
+					if bo, ok := flattenGuard(g).Cond.(*ssa.BinOp); ok {
+						for _, side := range []ssa.Value{bo.X, bo.Y} {
+							if ld, ok := side.(*ssa.UnOp); ok && ld.Op == token.MUL {
+								if fa, ok := ld.X.(*ssa.FieldAddr); ok {
+									if _, f := fieldAddrName(fa); f == "Condition" {
+										kindTested = true
+									}
+								}
+							}
+						}
+					}
+				}
+				if !kindTested {
+					guarded = false
+				}
+			})
+			r.Check(found && guarded, rule, construct, p.pos(call.Pos()), "capabilities are carried between clauses only under a test of the clause kind",
+				fnShort(fn)+" types a clause starting from capabilities carried over from earlier clauses, and the carry-over is not conditional on the earlier clause being a `when`: what an `unless { x has a }` established (a is absent when the policy goes on) is then taken as `x has a` in the next clause, and `x.a` validates although it fails at run time")
+		}
+	}
+	r.Check(n >= 1, rule, "clause-typing-sites", "-", itoa(n)+" place(s) type a clause body", "no place was found where a clause body is handed to the typing dispatcher (anchor lost)")
 }
